@@ -207,7 +207,7 @@ func c05AsyncRun(sql string, rows []map[string]interface{}, want int, nSinks int
 	for _, r := range rows {
 		s.Emit(r)
 	}
-	deadline := time.Now().Add(5 * time.Second)
+	deadline := time.Now().Add(2 * time.Second)
 	select {
 	case <-sinkDone:
 	case <-time.After(time.Until(deadline)):
@@ -289,6 +289,18 @@ func (c05) Exec(c Case) [][][]string {
 				all = append(all, c05CopyRow(r))
 			}
 			all = append(all, c05DecRow(rowToks))
+			// the sentinel closes the sequence only if it passes WHERE (it does by construction)
+			probe := streamsql.New(streamsql.WithDiscardLog())
+			if err := probe.Execute(sql); err == nil {
+				pr := c05SyncRes(probe, c05DecRow(rowToks))
+				probe.Stop()
+				if pr[0] == "none" || pr[0] == "err" || pr[0] == "panic" {
+					out = append(out, [][]string{{"sentinel-filtered"}})
+					continue
+				}
+			} else {
+				probe.Stop()
+			}
 			sl, cl, err := c05AsyncRun(sql, all, passed+1, nSinks, capN, read)
 			if err != nil {
 				out = append(out, [][]string{{"execerr"}})
